@@ -25,15 +25,19 @@ def cur() -> 'Ctx':
     return _CUR[-1]
 
 
-class PathCut(Exception):
+class PathCut(BaseException):
     """Stop exploring this path (infeasible, or cut at a loop head)."""
 
 
-class Unreached(Exception):
+class PathDone(BaseException):
+    """The harness has seen all it needs on this path (counts as a completed path)."""
+
+
+class Unreached(BaseException):
     """The subject uses something outside the modelled subset."""
 
 
-class EngineError(Exception):
+class EngineError(BaseException):
     pass
 
 
@@ -840,6 +844,9 @@ class Ctx:
     def cut(self) -> None:
         raise PathCut()
 
+    def done(self) -> None:
+        raise PathDone()
+
     def raise_py(self, cls: type, *args: Any) -> None:
         raise PyRaise(ExcVal(cls, args))
 
@@ -961,6 +968,8 @@ class Explorer:
             _CUR.append(ctx)
             try:
                 harness(ctx)
+                self.paths += 1
+            except PathDone:
                 self.paths += 1
             except PathCut:
                 self.cut_paths += 1
@@ -1248,3 +1257,111 @@ def Store(arr: Any, k: Any, v: Any) -> Any:
 
 def MapEq(a: Any, b: Any) -> Any:
     return mk_bool(a == b)
+
+
+# ---------------------------------------------------------------------------
+# sequences of opaque references
+
+
+class FnSeq:
+    """An immutable sequence given by its (symbolic) length and an element function of the index."""
+
+    __pyvc_symbolic__ = True
+    __pyvc_stub__ = True
+
+    def __init__(self, n: Any, fn: Callable[[Any], Any]) -> None:
+        self.n = n
+        self.fn = fn
+
+    def __pyvc_seq__(self) -> 'FnSeq':
+        return self
+
+    def length(self) -> Any:
+        return self.n
+
+    def __pyvc_len__(self) -> Any:
+        return self.n
+
+    def __getitem__(self, i: Any) -> Any:
+        return self.fn(i)
+
+    def __pyvc_getitem__(self, i: Any) -> Any:
+        return self.fn(i)
+
+    def __pyvc_truth__(self) -> Any:
+        return self.n > 0
+
+    def __pyvc_reversed__(self) -> 'FnSeq':
+        n, fn = self.n, self.fn
+        return FnSeq(n, lambda i: fn(n - 1 - i))
+
+    def __pyvc_iter__(self) -> Any:
+        if isinstance(self.n, int):
+            return [self.fn(i) for i in range(self.n)]
+        raise Unreached('iteration over a sequence of symbolic length without an invariant')
+
+    def __iter__(self) -> Any:
+        return iter(self.__pyvc_iter__())
+
+    def __len__(self) -> int:
+        if isinstance(self.n, int):
+            return self.n
+        raise Unreached('len() of a sequence of symbolic length in native code')
+
+    def __bool__(self) -> bool:
+        return bool(self.n > 0)
+
+
+class SeqList:
+    """Mutable list whose elements are opaque references identified by an Int (SMT Seq Int)."""
+
+    __pyvc_symbolic__ = True
+    __pyvc_stub__ = True
+
+    def __init__(self, wrap: Callable[[Any], Any], unwrap: Callable[[Any], Any], seq: Any = None) -> None:
+        self.wrap = wrap
+        self.unwrap = unwrap
+        self.seq = seq if seq is not None else z3.Empty(z3.SeqSort(z3.IntSort()))
+
+    def insert(self, i: Any, x: Any) -> None:
+        if not (isinstance(i, int) and i == 0):
+            raise Unreached('SeqList.insert at a position other than 0')
+        self.seq = z3.simplify(z3.Concat(z3.Unit(_i(self.unwrap(x))), self.seq))
+
+    def append(self, x: Any) -> None:
+        self.seq = z3.simplify(z3.Concat(self.seq, z3.Unit(_i(self.unwrap(x)))))
+
+    def length(self) -> Any:
+        return mk_int(z3.Length(self.seq))
+
+    def __pyvc_len__(self) -> Any:
+        return self.length()
+
+    def __pyvc_truth__(self) -> Any:
+        return mk_bool(z3.Length(self.seq) > 0)
+
+    def __pyvc_seq__(self) -> 'SeqList':
+        return self
+
+    def __getitem__(self, i: Any) -> Any:
+        return self.wrap(mk_int(self.seq[_i(i)]))
+
+    def __pyvc_getitem__(self, i: Any) -> Any:
+        n = z3.Length(self.seq)
+        ii = _i(i)
+        c = cur()
+        if c.branch(z3.Or(ii >= n, ii < -n), label='index-oob'):
+            c.raise_py(IndexError, 'list index out of range')
+        return self.wrap(mk_int(self.seq[z3.If(ii < 0, n + ii, ii)]))
+
+    def __pyvc_havoc__(self, ctx: 'Ctx', base: str) -> 'SeqList':
+        return SeqList(self.wrap, self.unwrap, ctx.fresh_const(base + '_seq', z3.SeqSort(z3.IntSort())))
+
+    def __pyvc_iter__(self) -> Any:
+        t = z3.simplify(z3.Length(self.seq))
+        if z3.is_int_value(t):
+            return [self.wrap(mk_int(z3.simplify(self.seq[k]))) for k in range(t.as_long())]
+        raise Unreached('iteration over a list of symbolic length without an invariant')
+
+    def __repr__(self) -> str:
+        return '<SeqList %s>' % (self.seq,)
